@@ -136,7 +136,21 @@ func orReach(rs []retInfo) string {
 }
 
 // hooks for data-structure / lock invariants (regions.go may extend)
-func (e *Engine) assumeEntryInvariants(fr *Frame, names map[string]*Val) {}
+func (e *Engine) assumeEntryInvariants(fr *Frame, names map[string]*Val) { fr.assumeGlobalInvariants() }
+
+// assumeGlobalInvariants assumes the trusted data-structure invariants of
+// the contract file (assume-invariant) in the current state.
+func (fr *Frame) assumeGlobalInvariants() {
+	for _, inv := range fr.eng.cf.AssumedInvs {
+		t, err := fr.evalClause(inv, &evalCtx{fr: fr, st: fr.st, old: fr.st, names: map[string]*Val{}, callee: "assume-invariant"})
+		if err != nil {
+			fr.stale("assume-invariant "+inv.Label, err)
+			continue
+		}
+		fr.assume(t)
+		fr.vc.assumed["assumed data-structure invariant "+inv.Label+": "+inv.Src] = true
+	}
+}
 func (e *Engine) exitInvariants(fr *Frame, names map[string]*Val)        {}
 
 // frameObligations: every heap the function changed must be covered by its
@@ -149,6 +163,7 @@ func (e *Engine) frameObligations(fr *Frame, c *Contract, names map[string]*Val)
 		}
 	}
 	declared := map[string][]string{}
+	whole := map[string]bool{}
 	for _, m := range c.Modifies {
 		if m.Src == "nothing" {
 			continue
@@ -166,6 +181,9 @@ func (e *Engine) frameObligations(fr *Frame, c *Contract, names map[string]*Val)
 				} else {
 					declared[n] = append(declared[n], leaf.ref)
 				}
+				if leaf.ref == "*" {
+					whole[n] = true
+				}
 			}
 		}
 	}
@@ -178,6 +196,9 @@ func (e *Engine) frameObligations(fr *Frame, c *Contract, names map[string]*Val)
 		}
 		if strings.HasPrefix(h, "RV$") || strings.HasPrefix(h, "LK$") || strings.HasPrefix(h, "CV$") {
 			continue // ghost state
+		}
+		if whole[h] {
+			continue
 		}
 		if strings.HasPrefix(h, "G$") {
 			if len(declared[h]) == 0 {
@@ -218,6 +239,20 @@ func (fr *Frame) evalModifies(cl *Clause, ctx *evalCtx) (locs []*Loc, err error)
 				efail("elems() of non-slice")
 			}
 			locs = append(locs, &Loc{kind: locElem, ref: sArr(s.t), idx: "*", root: fr.eng.elemRoot(st.Elem()), typ: st.Elem()})
+		case e.Kind == "call" && e.Args[0].Kind == "ident" && e.Args[0].Name == "heap":
+			// heap(Type.field): the field of every object of that type
+			name := e.Args[1].String()
+			parts := strings.SplitN(name, ".", 2)
+			t := fr.eng.parseType(parts[0])
+			if t == nil || structOf(t) == nil || len(parts) != 2 {
+				efail("heap(%s): unknown struct field", name)
+			}
+			obj, _, _ := types.LookupFieldOrMethod(t, true, fr.eng.tpkg, parts[1])
+			fv, ok := obj.(*types.Var)
+			if !ok {
+				efail("heap(%s): unknown field", name)
+			}
+			locs = append(locs, &Loc{kind: locField, ref: "*", root: fr.eng.fieldRoot(t), path: []string{parts[1]}, typ: fv.Type()})
 		case e.Kind == "call" && e.Args[0].Kind == "ident" && e.Args[0].Name == "fields":
 			x := fr.eval1(e.Args[1], ctx)
 			pt, ok := x.typ.Underlying().(*types.Pointer)
